@@ -2,10 +2,14 @@
    PARTIAL: instruction selection/encoding after address-mode lowering, the register allocator and the native
    code are exercised by the C02 run (all widths, bases and static offsets over the whole 32-bit range incl.
    >= 2^31, memories from 1 page to just under 4 GiB, accesses placed around earlier checks, calls, memory.grow,
-   block joins and loops, both engines versus W), not modelled; the known-safe-bound cache is modelled for one
-   base value within straight-line code (the dataflow over block joins is exercised only). Proved here: *)
+   block joins and loops, both engines versus W), not modelled. The three pieces of the compiler on which the
+   property rests are modelled and tied DIRECTLY to the code (overlay wrappers, checks/c02_amode.py and
+   checks/c02_elide.py): the emitted bounds check (Engine/Bounds.v), lowerToAddressMode (Engine/Amode.v, compared
+   with the real function on enumerated and random SSA trees) and the known-safe-bounds cache as a dataflow
+   analysis over control-flow graphs (Engine/Elide.v, compared with the real cache while the real frontend lowers
+   generated functions). Proved here: *)
 From Coq Require Import ZArith List Bool.
-From Verif Require Import Lib.GoInt Gen.GenWasm Engine.Bounds Engine.Amode Wasm.Numerics Wasm.Sem Proofs.BoundsP Proofs.AmodeP Proofs.SemP.
+From Verif Require Import Lib.GoInt Gen.GenWasm Engine.Bounds Engine.Amode Engine.Elide Wasm.Numerics Wasm.Sem Proofs.BoundsP Proofs.AmodeP Proofs.ElideP Proofs.SemP.
 Import ListNotations.
 Open Scope Z_scope.
 
@@ -34,14 +38,57 @@ Theorem C02_elision_sound : forall memLen memLen' base off0 size0 off size,
 Proof. exact elided_access_in_bounds. Qed.
 Print Assumptions C02_elision_sound.
 
-(* amd64 address-mode folding (lowerToAddressMode with the F01 repair): for every pointer expression of the shape
-   the frontend emits, every register valuation with zero-extended 32-bit values and every static offset below
-   2^31, the x86 effective address equals the SSA value plus the offset modulo 2^64 *)
+(* amd64 address-mode folding (lowerToAddressMode with the F01 repair): for every pointer expression, every
+   register valuation and EVERY 32-bit static offset (those with the top bit set go through a constant
+   materialised in a register) the x86 effective address equals the SSA value plus the offset modulo 2^64, provided
+   the nodes the code pattern-matches (the pointer; under a single-use Iadd and an offset below 2^31 its two
+   operands) are none of: sign extension of a register, 8/16-bit extension, sign extension of a 64-bit value, shift
+   by a constant above 3 or by a variable amount (`lowerable`), and a matched zero extension reads a register
+   whose upper half is clear (`zext_ok`). Everything below those nodes is unconstrained. *)
 Theorem C02_amode_correct : forall rg e off,
-  frontend_shape e = true -> zext_ok rg e -> wf_e e -> 0 <= off < 2147483648 ->
+  lowerable off e = true -> zext_ok rg off e -> 0 <= off < W32 ->
   eval_amode (lower_to_amode true rg e off) = w64 (ev rg e + off).
-Proof. exact amode_correct_small_off. Qed.
+Proof. exact amode_correct. Qed.
 Print Assumptions C02_amode_correct.
+
+(* the frontend's image (memBase + zero-extended 32-bit address, table base + (index << k<=3), constants of any
+   size, single- or multi-use nodes) lies inside that class, and the real function does not panic on it *)
+Theorem C02_amode_correct_frontend : forall rg e off,
+  frontend_shape e = true -> zext_all rg e -> 0 <= off < W32 ->
+  eval_amode (lower_to_amode true rg e off) = w64 (ev rg e + off) /\ lower_panics e off = false.
+Proof. exact amode_correct_frontend. Qed.
+Print Assumptions C02_amode_correct_frontend.
+
+(* The known-safe-bounds cache as a dataflow analysis. For EVERY control-flow graph g satisfying the decidable
+   structural conditions wf_cfg (blocks in lowering order; the predecessors looked at when a block becomes current
+   were lowered before it; predecessors added later — the back edges of Wasm loops — come from a region of blocks
+   lowered after the header and entered only through it, and such a header is not sealed; a base value used in a
+   block is not defined in a block lowered later (SSA values are created when they are lowered); every access names
+   its own address value), EVERY execution path from the entry — through joins and around loops, with arbitrary
+   new values for the values a block defines each time it is entered, the memory growing at any moment and moving at
+   calls and memory.grow — and EVERY program point: each fact (v, bound, addr) the analysis holds there is backed by
+   a bounds check of v with a ceiling >= bound that passed earlier on that path while v had its present value;
+   hence v + bound <= current memory length; and a cached absolute address equals current memory base + v.
+   wf_cfg is evaluated inside Coq on every graph the real frontend produced in the correspondence run. *)
+Theorem C02_elision_sound_cfg : forall g p b k q f,
+  Elide.wf_cfg g = true -> Elide.reach g (b :: p) k q -> In f (Elide.state_at g b k) ->
+  (exists c, In c (Elide.s_log q) /\ Elide.p_v c = Elide.fv f /\ Elide.fb f <= Elide.p_ceil c /\ Elide.p_val c = Elide.s_env q (Elide.fv f) /\
+             Elide.p_val c + Elide.p_ceil c <= Elide.p_mem c /\ Elide.p_mem c <= Elide.s_mem q) /\
+  Elide.s_env q (Elide.fv f) + Elide.fb f <= Elide.s_mem q /\
+  (forall A, Elide.fa f = Some A -> Elide.s_aenv q A = Elide.s_base q + Elide.s_env q (Elide.fv f)).
+Proof. exact elision_sound_cfg. Qed.
+Print Assumptions C02_elision_sound_cfg.
+
+(* consequently every access of the emitted code — bounds check emitted or elided, absolute address re-used or
+   recomputed — lies inside the current memory and goes through current base + value (the emitted check itself is
+   C02_compiler_check_exact with ceil = offset + size) *)
+Theorem C02_access_in_bounds_cfg : forall g p b k q v c a q',
+  Elide.wf_cfg g = true -> Elide.reach g (b :: p) k q -> nth_error (Elide.b_events (Elide.blk g b)) k = Some (Elide.Access v c a) ->
+  Elide.estep (Elide.state_at g b k) q (Elide.Access v c a) q' ->
+  Elide.s_env q' v + c <= Elide.s_mem q' /\
+  Elide.s_aenv q' (snd (fst (Elide.memop (Elide.state_at g b k) v c a))) = Elide.s_base q' + Elide.s_env q' v.
+Proof. exact access_in_bounds_cfg. Qed.
+Print Assumptions C02_access_in_bounds_cfg.
 
 (* W: an in-bounds store changes exactly the addressed bytes; an out-of-bounds store traps *)
 Theorem C02_store_exact : forall D ii s f n off v a stk ma m,
